@@ -779,3 +779,888 @@ Theorem C14_own_example_subst_quant :
    (0, Some 8, Some 6, Some (RN 8), Some true)].
 Proof. exact ex_subst_quant. Qed.
 Print Assumptions C14_own_example_subst_quant.
+
+(** ** 11. C14y - the same statements for the other rule sets.  Models: Mgr/OomBcdd.v
+    (complement-edge BDD: capply_op_c = the 8 operators through apply_bin::<And/Xor> and tag
+    flips, capply_ite_c, negation = a tag flip), Mgr/OomZbdd.v (ZBDD: zapply_c = union /
+    intersection / difference, zapply_not_c, zapply_op_c = the 8 Boolean operators incl.
+    symmetric difference and the two-phase nand / nor / equiv, zapply_ite_c with its
+    binary_ternary recursion), Mgr/OomMtbdd.v (MTBDD: mt_apply_bin_c for the 6 arithmetic
+    operators, mt_apply_ite_c, mt_restrict_c, constants, variables; TWO budgets: [cap] inner
+    nodes and [tcap] terminals - get_terminal fails iff the value is new and all terminal
+    slots are in use; the MTBDD code has no recursor: always sequential).  All in the error
+    monad [gres] of Mgr/OomGen.v: [GOk s' c' r] / [GOom s' c'] = Err(OutOfMemory) with the
+    table and cache at the point of failure / [GStuck] = panic or divergence.  Unbounded
+    models and their C02 / C09 / C10 theorems: DD/ApplyBcdd*.v, DD/Zbdd*.v, DD/ApplyMtbdd*.v. *)
+From OxiVerif Require Import DD.ApplyBcdd DD.ApplyBcddProofs DD.ApplyBcddIte DD.ApplyBcddEval DD.ApplyBcddExamples.
+From OxiVerif Require Import DD.FamSpec DD.FamSpecProofs DD.ZbddOps DD.ZbddOpsProofs DD.ZbddBool DD.ZbddBoolProofs DD.ZbddExamples DD.ZbddBoolExamples.
+From OxiVerif Require Import Num.I64 DD.ApplyMtbdd DD.ApplyMtbddBase DD.ApplyMtbddProofs DD.ApplyMtbddTop DD.ApplyMtbddExamples.
+From OxiVerif Require Import Mgr.OomGen Mgr.OomGenProofs.
+From OxiVerif Require Import Mgr.OomBcdd Mgr.OomBcddProofs Mgr.OomBcddSafe Mgr.OomBcddExamples.
+From OxiVerif Require Import Mgr.OomZbdd Mgr.OomZbddProofs Mgr.OomZbddSafe Mgr.OomZbddThms Mgr.OomZbddExamples.
+From OxiVerif Require Import Mgr.OomMtbdd Mgr.OomMtbddProofs Mgr.OomMtbddSafe Mgr.OomMtbddExamples.
+
+(** *** 11.1 BCDD (edges = reference + complement tag; the value of an edge under a choice
+    is [semc]) *)
+
+(* never a wrong edge: a result of the bounded run is literally the result of the unbounded run *)
+
+Theorem C14_bcdd_never_wrong_op : forall lt C cget cadd cap par o fuel s (c : C) f g s' c' r,
+  capply_op_c lt C cget cadd cap par fuel s c o f g = GOk s' c' r ->
+  capply_op lt C cget cadd fuel s c o f g = Some (s', c', r).
+Proof. exact coom_never_wrong_op. Qed.
+Print Assumptions C14_bcdd_never_wrong_op.
+
+Theorem C14_bcdd_never_wrong_ite : forall lt C cget cadd cap par fuel s (c : C) f g h s' c' r,
+  capply_ite_c lt C cget cadd cap par fuel s c f g h = GOk s' c' r ->
+  capply_ite lt C cget cadd fuel s c f g h = Some (s', c', r).
+Proof. exact coom_never_wrong_ite. Qed.
+Print Assumptions C14_bcdd_never_wrong_ite.
+
+Theorem C14_bcdd_not_total : forall C s (c : C) f,
+  capply_not_c C s c f = GOk s c (enot f) /\ capply_not C s c f = Some (s, c, enot f).
+Proof. exact coom_not_total. Qed.
+Print Assumptions C14_bcdd_not_total.
+
+Theorem C14_bcdd_never_wrong_op_sem : forall lt C cget cadd, lossyC cget cadd ->
+  forall cap par o fuel s (c : C) f g s' c' r,
+  BcOK s -> CacheOKC cget s c -> ref_ok s (eref f) -> ref_ok s (eref g) -> S (nlevels s) <= fuel ->
+  capply_op_c lt C cget cadd cap par fuel s c o f g = GOk s' c' r ->
+  BcOK s' /\ CacheOKC cget s' c' /\ intact_c s s' /\ ref_ok s' (eref r) /\
+  forall c0, bchoice c0 -> exists x y,
+    semc s (S (nlevels s)) f c0 = Some x /\ semc s (S (nlevels s)) g c0 = Some y /\
+    semc s' (S (nlevels s')) r c0 = Some (eval_bop o x y).
+Proof. exact coom_never_wrong_op_sem. Qed.
+Print Assumptions C14_bcdd_never_wrong_op_sem.
+
+Theorem C14_bcdd_never_wrong_ite_sem : forall lt C cget cadd, lossyC cget cadd ->
+  forall cap par fuel s (c : C) f g h s' c' r,
+  BcOK s -> CacheOKC cget s c -> ref_ok s (eref f) -> ref_ok s (eref g) -> ref_ok s (eref h) ->
+  S (nlevels s) <= fuel ->
+  capply_ite_c lt C cget cadd cap par fuel s c f g h = GOk s' c' r ->
+  BcOK s' /\ CacheOKC cget s' c' /\ intact_c s s' /\ ref_ok s' (eref r) /\
+  forall c0, bchoice c0 -> exists x y z,
+    semc s (S (nlevels s)) f c0 = Some x /\ semc s (S (nlevels s)) g c0 = Some y /\
+    semc s (S (nlevels s)) h c0 = Some z /\
+    semc s' (S (nlevels s')) r c0 = Some (if x then y else z).
+Proof. exact coom_never_wrong_ite_sem. Qed.
+Print Assumptions C14_bcdd_never_wrong_ite_sem.
+
+(* after Err(OutOfMemory): a well-formed BCDD table with a correct cache that extends the old one;
+   everything that existed is intact; the store is full *)
+
+Theorem C14_bcdd_safe_op : forall lt C cget cadd, lossyC cget cadd ->
+  forall cap par o fuel s (c : C) f g s' c',
+  BcOK s -> CacheOKC cget s c -> ref_ok s (eref f) -> ref_ok s (eref g) -> S (nlevels s) <= fuel ->
+  capply_op_c lt C cget cadd cap par fuel s c o f g = GOom s' c' ->
+  BcOK s' /\ CacheOKC cget s' c' /\ extends s s' /\ intact_c s s' /\
+         node_count s <= node_count s' /\ cap <= node_count s'.
+Proof. exact coom_safe_op. Qed.
+Print Assumptions C14_bcdd_safe_op.
+
+Theorem C14_bcdd_safe_ite : forall lt C cget cadd, lossyC cget cadd ->
+  forall cap par fuel s (c : C) f g h s' c',
+  BcOK s -> CacheOKC cget s c -> ref_ok s (eref f) -> ref_ok s (eref g) -> ref_ok s (eref h) ->
+  S (nlevels s) <= fuel ->
+  capply_ite_c lt C cget cadd cap par fuel s c f g h = GOom s' c' ->
+  BcOK s' /\ CacheOKC cget s' c' /\ extends s s' /\ intact_c s s' /\
+         node_count s <= node_count s' /\ cap <= node_count s'.
+Proof. exact coom_safe_ite. Qed.
+Print Assumptions C14_bcdd_safe_ite.
+
+Theorem C14_bcdd_intact_meaning : forall s s', intact_c s s' ->
+  s_handles s' = s_handles s /\
+  s_v2l s' = s_v2l s /\ s_l2v s' = s_l2v s /\ s_terms s' = s_terms s /\
+  (forall id nd, find_node s id = Some nd -> find_node s' id = Some nd) /\
+  (forall e, ref_ok s (eref e) -> ref_ok s' (eref e) /\ forall k c0, semc s' k e c0 = semc s k e c0) /\
+  (forall h, In h (s_handles s) -> forall c0, sem_edge s' (snd h) c0 = sem_edge s (snd h) c0) /\
+  (forall id, find_node s id = None -> ~ reachable s' (handle_refs s') (RN id)) /\
+  (forall r, reachable s' (handle_refs s') r <-> reachable s (handle_refs s) r).
+Proof. exact intact_c_elim. Qed.
+Print Assumptions C14_bcdd_intact_meaning.
+
+Theorem C14_bcdd_no_panic_op : forall lt C cget cadd, lossyC cget cadd ->
+  forall cap par o fuel s (c : C) f g,
+  BcOK s -> CacheOKC cget s c -> ref_ok s (eref f) -> ref_ok s (eref g) -> S (nlevels s) <= fuel ->
+  capply_op_c lt C cget cadd cap par fuel s c o f g <> GStuck.
+Proof. exact coom_no_panic_op. Qed.
+Print Assumptions C14_bcdd_no_panic_op.
+
+Theorem C14_bcdd_no_panic_ite : forall lt C cget cadd, lossyC cget cadd ->
+  forall cap par fuel s (c : C) f g h,
+  BcOK s -> CacheOKC cget s c -> ref_ok s (eref f) -> ref_ok s (eref g) -> ref_ok s (eref h) ->
+  S (nlevels s) <= fuel ->
+  capply_ite_c lt C cget cadd cap par fuel s c f g h <> GStuck.
+Proof. exact coom_no_panic_ite. Qed.
+Print Assumptions C14_bcdd_no_panic_ite.
+
+(* exactness: the correct result exactly when the table of the unbounded run fits, Err with the
+   manager intact otherwise; hence the outcome does not depend on the recursor *)
+
+Theorem C14_bcdd_exact_op : forall lt C cget cadd, lossyC cget cadd ->
+  forall cap par o fuel s (c : C) f g,
+  BcOK s -> CacheOKC cget s c -> ref_ok s (eref f) -> ref_ok s (eref g) -> S (nlevels s) <= fuel ->
+  exists su cu ru, capply_op lt C cget cadd fuel s c o f g = Some (su, cu, ru) /\
+    (forall c0, bchoice c0 -> exists x y,
+    semc s (S (nlevels s)) f c0 = Some x /\ semc s (S (nlevels s)) g c0 = Some y /\
+    semc su (S (nlevels su)) ru c0 = Some (eval_bop o x y)) /\
+    (node_count su <= Nat.max cap (node_count s) -> capply_op_c lt C cget cadd cap par fuel s c o f g = GOk su cu ru) /\
+    (Nat.max cap (node_count s) < node_count su ->
+       exists s' c', capply_op_c lt C cget cadd cap par fuel s c o f g = GOom s' c' /\
+         BcOK s' /\ CacheOKC cget s' c' /\ extends s s' /\ intact_c s s' /\
+         node_count s <= node_count s' /\ cap <= node_count s').
+Proof. exact coom_exact_op. Qed.
+Print Assumptions C14_bcdd_exact_op.
+
+Theorem C14_bcdd_exact_ite : forall lt C cget cadd, lossyC cget cadd ->
+  forall cap par fuel s (c : C) f g h,
+  BcOK s -> CacheOKC cget s c -> ref_ok s (eref f) -> ref_ok s (eref g) -> ref_ok s (eref h) ->
+  S (nlevels s) <= fuel ->
+  exists su cu ru, capply_ite lt C cget cadd fuel s c f g h = Some (su, cu, ru) /\
+    (forall c0, bchoice c0 -> exists x y z,
+    semc s (S (nlevels s)) f c0 = Some x /\ semc s (S (nlevels s)) g c0 = Some y /\
+    semc s (S (nlevels s)) h c0 = Some z /\
+    semc su (S (nlevels su)) ru c0 = Some (if x then y else z)) /\
+    (node_count su <= Nat.max cap (node_count s) -> capply_ite_c lt C cget cadd cap par fuel s c f g h = GOk su cu ru) /\
+    (Nat.max cap (node_count s) < node_count su ->
+       exists s' c', capply_ite_c lt C cget cadd cap par fuel s c f g h = GOom s' c' /\
+         BcOK s' /\ CacheOKC cget s' c' /\ extends s s' /\ intact_c s s' /\
+         node_count s <= node_count s' /\ cap <= node_count s').
+Proof. exact coom_exact_ite. Qed.
+Print Assumptions C14_bcdd_exact_ite.
+
+Theorem C14_bcdd_outcome_recursor_indep_op : forall lt C cget cadd, lossyC cget cadd ->
+  forall cap par par' o fuel s (c : C) f g,
+  BcOK s -> CacheOKC cget s c -> ref_ok s (eref f) -> ref_ok s (eref g) -> S (nlevels s) <= fuel ->
+  gres_code (capply_op_c lt C cget cadd cap par fuel s c o f g) =
+  gres_code (capply_op_c lt C cget cadd cap par' fuel s c o f g).
+Proof. exact coom_outcome_recursor_indep_op. Qed.
+Print Assumptions C14_bcdd_outcome_recursor_indep_op.
+
+Theorem C14_bcdd_outcome_recursor_indep_ite : forall lt C cget cadd, lossyC cget cadd ->
+  forall cap par par' fuel s (c : C) f g h,
+  BcOK s -> CacheOKC cget s c -> ref_ok s (eref f) -> ref_ok s (eref g) -> ref_ok s (eref h) ->
+  S (nlevels s) <= fuel ->
+  gres_code (capply_ite_c lt C cget cadd cap par fuel s c f g h) =
+  gres_code (capply_ite_c lt C cget cadd cap par' fuel s c f g h).
+Proof. exact coom_outcome_recursor_indep_ite. Qed.
+Print Assumptions C14_bcdd_outcome_recursor_indep_ite.
+
+(* retry and monotonicity (no hypothesis) *)
+
+Theorem C14_bcdd_retry_op : forall lt C cget cadd cap par o fuel s (c : C) f g su cu ru,
+  capply_op lt C cget cadd fuel s c o f g = Some (su, cu, ru) -> node_count su <= cap ->
+  capply_op_c lt C cget cadd cap par fuel s c o f g = GOk su cu ru.
+Proof. exact coom_retry_op. Qed.
+Print Assumptions C14_bcdd_retry_op.
+
+Theorem C14_bcdd_retry_ite : forall lt C cget cadd cap par fuel s (c : C) f g h su cu ru,
+  capply_ite lt C cget cadd fuel s c f g h = Some (su, cu, ru) -> node_count su <= cap ->
+  capply_ite_c lt C cget cadd cap par fuel s c f g h = GOk su cu ru.
+Proof. exact coom_retry_ite. Qed.
+Print Assumptions C14_bcdd_retry_ite.
+
+Theorem C14_bcdd_monotone_op : forall lt C cget cadd cap cap' par par' o fuel s (c : C) f g s' c' r, cap <= cap' ->
+  capply_op_c lt C cget cadd cap par fuel s c o f g = GOk s' c' r ->
+  capply_op_c lt C cget cadd cap' par' fuel s c o f g = GOk s' c' r.
+Proof. exact coom_monotone_op. Qed.
+Print Assumptions C14_bcdd_monotone_op.
+
+Theorem C14_bcdd_monotone_ite : forall lt C cget cadd cap cap' par par' fuel s (c : C) f g h s' c' r, cap <= cap' ->
+  capply_ite_c lt C cget cadd cap par fuel s c f g h = GOk s' c' r ->
+  capply_ite_c lt C cget cadd cap' par' fuel s c f g h = GOk s' c' r.
+Proof. exact coom_monotone_ite. Qed.
+Print Assumptions C14_bcdd_monotone_ite.
+
+(* variable creation: one insertion; on failure the manager is untouched *)
+
+Theorem C14_bcdd_var_exact : forall cap s v neg, BcOK s -> v < nlevels s ->
+  exists s' r, cmk_var s v neg = Some (s', r) /\ BcOK s' /\ extends s s' /\ ref_ok s' (eref r) /\
+    (forall a, cbfun_of s' r a = xorb neg (var_s v a)) /\
+    (node_count s' <= Nat.max cap (node_count s) -> cmk_var_cap cap s v neg = Some (Some (s', r))) /\
+    (Nat.max cap (node_count s) < node_count s' ->
+       cmk_var_cap cap s v neg = Some None /\ cap <= node_count s).
+Proof. exact coom_var_exact. Qed.
+Print Assumptions C14_bcdd_var_exact.
+
+Theorem C14_bcdd_var_never_wrong : forall cap s v neg s' r,
+  cmk_var_cap cap s v neg = Some (Some (s', r)) -> cmk_var s v neg = Some (s', r).
+Proof. exact coom_var_never_wrong. Qed.
+Print Assumptions C14_bcdd_var_never_wrong.
+
+(* non-vacuity: a concrete table (3 levels, 6 nodes, 5 handles, exact counts); every outcome occurs;
+   the recursors differ in the cache of the failed run; the exactness theorem instantiated *)
+
+Theorem C14_bcdd_example_table : BcOK exc3 /\ rc_exact_b exc3 [] = true /\ node_count exc3 = 6.
+Proof. exact exc3_ok. Qed.
+Print Assumptions C14_bcdd_example_table.
+
+Theorem C14_bcdd_example_xor : forall p,
+  map (fun cap => cout (cop_nc cap p exc3 OXor (ce 5) (ce 2))) [0; 6; 7; 8; 9] =
+  [(1, Some 6, None); (1, Some 6, None); (1, Some 7, None);
+   (0, Some 8, Some (mkEdge (RN 8) true)); (0, Some 8, Some (mkEdge (RN 8) true))].
+Proof. exact exc3_xor. Qed.
+Print Assumptions C14_bcdd_example_xor.
+
+Theorem C14_bcdd_example_ite : forall p,
+  map (fun cap => cout (cite_nc cap p exc3 (ce 2) (ce 5) (enot (ce 1)))) [0; 6; 7; 8; 9; 10] =
+  [(1, Some 6, None); (1, Some 6, None); (1, Some 7, None); (1, Some 8, None);
+   (0, Some 9, Some (mkEdge (RN 9) false)); (0, Some 9, Some (mkEdge (RN 9) false))].
+Proof. exact exc3_ite. Qed.
+Print Assumptions C14_bcdd_example_ite.
+
+Theorem C14_bcdd_example_recursors : let run p := capply_op_c lt_id eacache eac_get eac_add 6 (fun _ => p) 4 exc3 [] OOr (ce 6) (ce 1) in
+  (gres_code (run false), ccache_of (run false)) = (1, Some []) /\
+  (gres_code (run true), ccache_of (run true)) =
+    (1, Some [(0%N, [mkEdge (RN 1) true; mkEdge (RN 4) true], mkEdge (RN 1) true)]).
+Proof. exact exc3_recursors. Qed.
+Print Assumptions C14_bcdd_example_recursors.
+
+Theorem C14_bcdd_example_exact : forall cap p,
+  (8 <= cap -> gres_code (cop_nc cap p exc3 OXor (ce 5) (ce 2)) = 0) /\
+  (cap < 8 -> exists s' c', cop_nc cap p exc3 OXor (ce 5) (ce 2) = GOom s' c' /\
+     BcOK s' /\ CacheOKC enc_get s' c' /\ extends exc3 s' /\ intact_c exc3 s' /\
+     node_count exc3 <= node_count s' /\ cap <= node_count s').
+Proof. exact exc3_exact_consequence. Qed.
+Print Assumptions C14_bcdd_example_exact.
+
+
+(** *** 11.2 ZBDD (references; a family of sets [fam_of] resp. the Boolean value [semz] of a
+    reference under a choice; invariant: [ZbddOK], the tautology chain [ZChainOK], [ZCacheOKB]) *)
+
+(* never a wrong reference *)
+
+Theorem C14_zbdd_never_wrong_set : forall gt C cget cadd cap par op fuel s (c : C) f g s' c' r,
+  zapply_c gt C cget cadd cap par fuel s c op f g = GOk s' c' r ->
+  zapply gt C cget cadd fuel s c op f g = Some (s', c', r).
+Proof. exact zoom_never_wrong_set. Qed.
+Print Assumptions C14_zbdd_never_wrong_set.
+
+Theorem C14_zbdd_never_wrong_not : forall gt C cget cadd cap par fuel s (c : C) f s' c' r,
+  zapply_not_c gt C cget cadd cap par fuel s c f = GOk s' c' r ->
+  zapply_not gt C cget cadd fuel s c f = Some (s', c', r).
+Proof. exact zoom_never_wrong_not. Qed.
+Print Assumptions C14_zbdd_never_wrong_not.
+
+Theorem C14_zbdd_never_wrong_op : forall gt C cget cadd cap par op fuel s (c : C) f g s' c' r,
+  zapply_op_c gt C cget cadd cap par fuel s c op f g = GOk s' c' r ->
+  zapply_op gt C cget cadd fuel s c op f g = Some (s', c', r).
+Proof. exact zoom_never_wrong_op. Qed.
+Print Assumptions C14_zbdd_never_wrong_op.
+
+Theorem C14_zbdd_never_wrong_ite : forall gt C cget cadd cap par fuel s (c : C) f g h s' c' r,
+  zapply_ite_c gt C cget cadd cap par fuel s c f g h = GOk s' c' r ->
+  zapply_ite gt C cget cadd fuel s c f g h = Some (s', c', r).
+Proof. exact zoom_never_wrong_ite. Qed.
+Print Assumptions C14_zbdd_never_wrong_ite.
+
+Theorem C14_zbdd_never_wrong_set_sem : forall gt C cget cadd, zlossy C cget cadd ->
+  forall cap par op fuel s (c : C) f g s' c' r,
+  ZbddOK s -> ZChainOK s -> ZCacheOKB C cget s c -> ref_ok s f -> ref_ok s g -> S (nlevels s) <= fuel ->
+  zapply_c gt C cget cadd cap par fuel s c op f g = GOk s' c' r ->
+  ZbddOK s' /\ ZChainOK s' /\ ZCacheOKB C cget s' c' /\ intact_z s s' /\ ref_ok s' r /\
+  exists F G R, fam_of s f = Some F /\ fam_of s g = Some G /\ fam_of s' r = Some R /\ feq R (f_bin op F G).
+Proof. exact zoom_never_wrong_set_sem. Qed.
+Print Assumptions C14_zbdd_never_wrong_set_sem.
+
+Theorem C14_zbdd_never_wrong_not_sem : forall gt C cget cadd, zlossy C cget cadd ->
+  forall cap par fuel s (c : C) f s' c' r,
+  ZbddOK s -> ZChainOK s -> ZCacheOKB C cget s c -> ref_ok s f -> S (nlevels s) <= fuel ->
+  zapply_not_c gt C cget cadd cap par fuel s c f = GOk s' c' r ->
+  ZbddOK s' /\ ZChainOK s' /\ ZCacheOKB C cget s' c' /\ intact_z s s' /\ ref_ok s' r /\
+  forall c0, choice_ok s c0 ->
+    exists bf, semz s (S (nlevels s)) 0 f c0 = Some bf /\ semz s' (S (nlevels s')) 0 r c0 = Some (negb bf).
+Proof. exact zoom_never_wrong_not_sem. Qed.
+Print Assumptions C14_zbdd_never_wrong_not_sem.
+
+Theorem C14_zbdd_never_wrong_op_sem : forall gt C cget cadd, zlossy C cget cadd ->
+  forall cap par op fuel s (c : C) f g s' c' r,
+  ZbddOK s -> ZChainOK s -> ZCacheOKB C cget s c -> ref_ok s f -> ref_ok s g -> S (nlevels s) <= fuel ->
+  zapply_op_c gt C cget cadd cap par fuel s c op f g = GOk s' c' r ->
+  ZbddOK s' /\ ZChainOK s' /\ ZCacheOKB C cget s' c' /\ intact_z s s' /\ ref_ok s' r /\
+  forall c0, choice_ok s c0 ->
+    exists bf bg, semz s (S (nlevels s)) 0 f c0 = Some bf /\ semz s (S (nlevels s)) 0 g c0 = Some bg /\
+      semz s' (S (nlevels s')) 0 r c0 = Some (eval_bop op bf bg).
+Proof. exact zoom_never_wrong_op_sem. Qed.
+Print Assumptions C14_zbdd_never_wrong_op_sem.
+
+Theorem C14_zbdd_never_wrong_ite_sem : forall gt C cget cadd, zlossy C cget cadd ->
+  forall cap par fuel s (c : C) f g h s' c' r,
+  ZbddOK s -> ZChainOK s -> ZCacheOKB C cget s c -> ref_ok s f -> ref_ok s g -> ref_ok s h ->
+  S (nlevels s) <= fuel ->
+  zapply_ite_c gt C cget cadd cap par fuel s c f g h = GOk s' c' r ->
+  ZbddOK s' /\ ZChainOK s' /\ ZCacheOKB C cget s' c' /\ intact_z s s' /\ ref_ok s' r /\
+  forall c0, choice_ok s c0 ->
+    exists bf bg bh, semz s (S (nlevels s)) 0 f c0 = Some bf /\ semz s (S (nlevels s)) 0 g c0 = Some bg /\
+      semz s (S (nlevels s)) 0 h c0 = Some bh /\
+      semz s' (S (nlevels s')) 0 r c0 = Some (if bf then bg else bh).
+Proof. exact zoom_never_wrong_ite_sem. Qed.
+Print Assumptions C14_zbdd_never_wrong_ite_sem.
+
+(* after Err(OutOfMemory) *)
+
+Theorem C14_zbdd_safe_set : forall gt C cget cadd, zlossy C cget cadd ->
+  forall cap par op fuel s (c : C) f g s' c',
+  ZbddOK s -> ZChainOK s -> ZCacheOKB C cget s c -> ref_ok s f -> ref_ok s g -> S (nlevels s) <= fuel ->
+  zapply_c gt C cget cadd cap par fuel s c op f g = GOom s' c' ->
+  ZbddOK s' /\ ZChainOK s' /\ ZCacheOKB C cget s' c' /\ extends s s' /\ intact_z s s' /\
+         node_count s <= node_count s' /\ cap <= node_count s'.
+Proof. exact zoom_safe_set. Qed.
+Print Assumptions C14_zbdd_safe_set.
+
+Theorem C14_zbdd_safe_not : forall gt C cget cadd, zlossy C cget cadd ->
+  forall cap par fuel s (c : C) f s' c',
+  ZbddOK s -> ZChainOK s -> ZCacheOKB C cget s c -> ref_ok s f -> S (nlevels s) <= fuel ->
+  zapply_not_c gt C cget cadd cap par fuel s c f = GOom s' c' ->
+  ZbddOK s' /\ ZChainOK s' /\ ZCacheOKB C cget s' c' /\ extends s s' /\ intact_z s s' /\
+         node_count s <= node_count s' /\ cap <= node_count s'.
+Proof. exact zoom_safe_not. Qed.
+Print Assumptions C14_zbdd_safe_not.
+
+Theorem C14_zbdd_safe_op : forall gt C cget cadd, zlossy C cget cadd ->
+  forall cap par op fuel s (c : C) f g s' c',
+  ZbddOK s -> ZChainOK s -> ZCacheOKB C cget s c -> ref_ok s f -> ref_ok s g -> S (nlevels s) <= fuel ->
+  zapply_op_c gt C cget cadd cap par fuel s c op f g = GOom s' c' ->
+  ZbddOK s' /\ ZChainOK s' /\ ZCacheOKB C cget s' c' /\ extends s s' /\ intact_z s s' /\
+         node_count s <= node_count s' /\ cap <= node_count s'.
+Proof. exact zoom_safe_op. Qed.
+Print Assumptions C14_zbdd_safe_op.
+
+Theorem C14_zbdd_safe_ite : forall gt C cget cadd, zlossy C cget cadd ->
+  forall cap par fuel s (c : C) f g h s' c',
+  ZbddOK s -> ZChainOK s -> ZCacheOKB C cget s c -> ref_ok s f -> ref_ok s g -> ref_ok s h ->
+  S (nlevels s) <= fuel ->
+  zapply_ite_c gt C cget cadd cap par fuel s c f g h = GOom s' c' ->
+  ZbddOK s' /\ ZChainOK s' /\ ZCacheOKB C cget s' c' /\ extends s s' /\ intact_z s s' /\
+         node_count s <= node_count s' /\ cap <= node_count s'.
+Proof. exact zoom_safe_ite. Qed.
+Print Assumptions C14_zbdd_safe_ite.
+
+Theorem C14_zbdd_intact_meaning : forall s s', intact_z s s' ->
+  s_handles s' = s_handles s /\
+  s_v2l s' = s_v2l s /\ s_l2v s' = s_l2v s /\ s_terms s' = s_terms s /\
+  (forall id nd, find_node s id = Some nd -> find_node s' id = Some nd) /\
+  (forall r, ref_ok s r -> ref_ok s' r /\ forall k lvl c0, semz s' k lvl r c0 = semz s k lvl r c0) /\
+  (forall h, In h (s_handles s) -> forall c0, sem_edge s' (snd h) c0 = sem_edge s (snd h) c0) /\
+  (forall id, find_node s id = None -> ~ reachable s' (handle_refs s') (RN id)) /\
+  (forall r, reachable s' (handle_refs s') r <-> reachable s (handle_refs s) r).
+Proof. exact intact_z_elim. Qed.
+Print Assumptions C14_zbdd_intact_meaning.
+
+(* no panic, no divergence *)
+
+Theorem C14_zbdd_no_panic_set : forall gt C cget cadd, zlossy C cget cadd ->
+  forall cap par op fuel s (c : C) f g,
+  ZbddOK s -> ZChainOK s -> ZCacheOKB C cget s c -> ref_ok s f -> ref_ok s g -> S (nlevels s) <= fuel ->
+  zapply_c gt C cget cadd cap par fuel s c op f g <> GStuck.
+Proof. exact zoom_no_panic_set. Qed.
+Print Assumptions C14_zbdd_no_panic_set.
+
+Theorem C14_zbdd_no_panic_not : forall gt C cget cadd, zlossy C cget cadd ->
+  forall cap par fuel s (c : C) f,
+  ZbddOK s -> ZChainOK s -> ZCacheOKB C cget s c -> ref_ok s f -> S (nlevels s) <= fuel ->
+  zapply_not_c gt C cget cadd cap par fuel s c f <> GStuck.
+Proof. exact zoom_no_panic_not. Qed.
+Print Assumptions C14_zbdd_no_panic_not.
+
+Theorem C14_zbdd_no_panic_op : forall gt C cget cadd, zlossy C cget cadd ->
+  forall cap par op fuel s (c : C) f g,
+  ZbddOK s -> ZChainOK s -> ZCacheOKB C cget s c -> ref_ok s f -> ref_ok s g -> S (nlevels s) <= fuel ->
+  zapply_op_c gt C cget cadd cap par fuel s c op f g <> GStuck.
+Proof. exact zoom_no_panic_op. Qed.
+Print Assumptions C14_zbdd_no_panic_op.
+
+Theorem C14_zbdd_no_panic_ite : forall gt C cget cadd, zlossy C cget cadd ->
+  forall cap par fuel s (c : C) f g h,
+  ZbddOK s -> ZChainOK s -> ZCacheOKB C cget s c -> ref_ok s f -> ref_ok s g -> ref_ok s h ->
+  S (nlevels s) <= fuel ->
+  zapply_ite_c gt C cget cadd cap par fuel s c f g h <> GStuck.
+Proof. exact zoom_no_panic_ite. Qed.
+Print Assumptions C14_zbdd_no_panic_ite.
+
+(* exactness; the outcome does not depend on the recursor *)
+
+Theorem C14_zbdd_exact_set : forall gt C cget cadd, zlossy C cget cadd ->
+  forall cap par op fuel s (c : C) f g,
+  ZbddOK s -> ZChainOK s -> ZCacheOKB C cget s c -> ref_ok s f -> ref_ok s g -> S (nlevels s) <= fuel ->
+  exists su cu ru, zapply gt C cget cadd fuel s c op f g = Some (su, cu, ru) /\
+    (exists F G R, fam_of s f = Some F /\ fam_of s g = Some G /\ fam_of su ru = Some R /\ feq R (f_bin op F G)) /\
+    (node_count su <= Nat.max cap (node_count s) -> zapply_c gt C cget cadd cap par fuel s c op f g = GOk su cu ru) /\
+    (Nat.max cap (node_count s) < node_count su ->
+       exists s' c', zapply_c gt C cget cadd cap par fuel s c op f g = GOom s' c' /\
+         ZbddOK s' /\ ZChainOK s' /\ ZCacheOKB C cget s' c' /\ extends s s' /\ intact_z s s' /\
+         node_count s <= node_count s' /\ cap <= node_count s').
+Proof. exact zoom_exact_set. Qed.
+Print Assumptions C14_zbdd_exact_set.
+
+Theorem C14_zbdd_exact_not : forall gt C cget cadd, zlossy C cget cadd ->
+  forall cap par fuel s (c : C) f,
+  ZbddOK s -> ZChainOK s -> ZCacheOKB C cget s c -> ref_ok s f -> S (nlevels s) <= fuel ->
+  exists su cu ru, zapply_not gt C cget cadd fuel s c f = Some (su, cu, ru) /\
+    (forall c0, choice_ok s c0 ->
+    exists bf, semz s (S (nlevels s)) 0 f c0 = Some bf /\ semz su (S (nlevels su)) 0 ru c0 = Some (negb bf)) /\
+    (node_count su <= Nat.max cap (node_count s) -> zapply_not_c gt C cget cadd cap par fuel s c f = GOk su cu ru) /\
+    (Nat.max cap (node_count s) < node_count su ->
+       exists s' c', zapply_not_c gt C cget cadd cap par fuel s c f = GOom s' c' /\
+         ZbddOK s' /\ ZChainOK s' /\ ZCacheOKB C cget s' c' /\ extends s s' /\ intact_z s s' /\
+         node_count s <= node_count s' /\ cap <= node_count s').
+Proof. exact zoom_exact_not. Qed.
+Print Assumptions C14_zbdd_exact_not.
+
+Theorem C14_zbdd_exact_op : forall gt C cget cadd, zlossy C cget cadd ->
+  forall cap par op fuel s (c : C) f g,
+  ZbddOK s -> ZChainOK s -> ZCacheOKB C cget s c -> ref_ok s f -> ref_ok s g -> S (nlevels s) <= fuel ->
+  exists su cu ru, zapply_op gt C cget cadd fuel s c op f g = Some (su, cu, ru) /\
+    (forall c0, choice_ok s c0 ->
+    exists bf bg, semz s (S (nlevels s)) 0 f c0 = Some bf /\ semz s (S (nlevels s)) 0 g c0 = Some bg /\
+      semz su (S (nlevels su)) 0 ru c0 = Some (eval_bop op bf bg)) /\
+    (node_count su <= Nat.max cap (node_count s) -> zapply_op_c gt C cget cadd cap par fuel s c op f g = GOk su cu ru) /\
+    (Nat.max cap (node_count s) < node_count su ->
+       exists s' c', zapply_op_c gt C cget cadd cap par fuel s c op f g = GOom s' c' /\
+         ZbddOK s' /\ ZChainOK s' /\ ZCacheOKB C cget s' c' /\ extends s s' /\ intact_z s s' /\
+         node_count s <= node_count s' /\ cap <= node_count s').
+Proof. exact zoom_exact_op. Qed.
+Print Assumptions C14_zbdd_exact_op.
+
+Theorem C14_zbdd_exact_ite : forall gt C cget cadd, zlossy C cget cadd ->
+  forall cap par fuel s (c : C) f g h,
+  ZbddOK s -> ZChainOK s -> ZCacheOKB C cget s c -> ref_ok s f -> ref_ok s g -> ref_ok s h ->
+  S (nlevels s) <= fuel ->
+  exists su cu ru, zapply_ite gt C cget cadd fuel s c f g h = Some (su, cu, ru) /\
+    (forall c0, choice_ok s c0 ->
+    exists bf bg bh, semz s (S (nlevels s)) 0 f c0 = Some bf /\ semz s (S (nlevels s)) 0 g c0 = Some bg /\
+      semz s (S (nlevels s)) 0 h c0 = Some bh /\
+      semz su (S (nlevels su)) 0 ru c0 = Some (if bf then bg else bh)) /\
+    (node_count su <= Nat.max cap (node_count s) -> zapply_ite_c gt C cget cadd cap par fuel s c f g h = GOk su cu ru) /\
+    (Nat.max cap (node_count s) < node_count su ->
+       exists s' c', zapply_ite_c gt C cget cadd cap par fuel s c f g h = GOom s' c' /\
+         ZbddOK s' /\ ZChainOK s' /\ ZCacheOKB C cget s' c' /\ extends s s' /\ intact_z s s' /\
+         node_count s <= node_count s' /\ cap <= node_count s').
+Proof. exact zoom_exact_ite. Qed.
+Print Assumptions C14_zbdd_exact_ite.
+
+Theorem C14_zbdd_outcome_recursor_indep_set : forall gt C cget cadd, zlossy C cget cadd ->
+  forall cap par par' op fuel s (c : C) f g,
+  ZbddOK s -> ZChainOK s -> ZCacheOKB C cget s c -> ref_ok s f -> ref_ok s g -> S (nlevels s) <= fuel ->
+  gres_code (zapply_c gt C cget cadd cap par fuel s c op f g) =
+  gres_code (zapply_c gt C cget cadd cap par' fuel s c op f g).
+Proof. exact zoom_outcome_recursor_indep_set. Qed.
+Print Assumptions C14_zbdd_outcome_recursor_indep_set.
+
+Theorem C14_zbdd_outcome_recursor_indep_not : forall gt C cget cadd, zlossy C cget cadd ->
+  forall cap par par' fuel s (c : C) f,
+  ZbddOK s -> ZChainOK s -> ZCacheOKB C cget s c -> ref_ok s f -> S (nlevels s) <= fuel ->
+  gres_code (zapply_not_c gt C cget cadd cap par fuel s c f) =
+  gres_code (zapply_not_c gt C cget cadd cap par' fuel s c f).
+Proof. exact zoom_outcome_recursor_indep_not. Qed.
+Print Assumptions C14_zbdd_outcome_recursor_indep_not.
+
+Theorem C14_zbdd_outcome_recursor_indep_op : forall gt C cget cadd, zlossy C cget cadd ->
+  forall cap par par' op fuel s (c : C) f g,
+  ZbddOK s -> ZChainOK s -> ZCacheOKB C cget s c -> ref_ok s f -> ref_ok s g -> S (nlevels s) <= fuel ->
+  gres_code (zapply_op_c gt C cget cadd cap par fuel s c op f g) =
+  gres_code (zapply_op_c gt C cget cadd cap par' fuel s c op f g).
+Proof. exact zoom_outcome_recursor_indep_op. Qed.
+Print Assumptions C14_zbdd_outcome_recursor_indep_op.
+
+Theorem C14_zbdd_outcome_recursor_indep_ite : forall gt C cget cadd, zlossy C cget cadd ->
+  forall cap par par' fuel s (c : C) f g h,
+  ZbddOK s -> ZChainOK s -> ZCacheOKB C cget s c -> ref_ok s f -> ref_ok s g -> ref_ok s h ->
+  S (nlevels s) <= fuel ->
+  gres_code (zapply_ite_c gt C cget cadd cap par fuel s c f g h) =
+  gres_code (zapply_ite_c gt C cget cadd cap par' fuel s c f g h).
+Proof. exact zoom_outcome_recursor_indep_ite. Qed.
+Print Assumptions C14_zbdd_outcome_recursor_indep_ite.
+
+(* retry and monotonicity (no hypothesis) *)
+
+Theorem C14_zbdd_retry_set : forall gt C cget cadd cap par op fuel s (c : C) f g su cu ru,
+  zapply gt C cget cadd fuel s c op f g = Some (su, cu, ru) -> node_count su <= cap ->
+  zapply_c gt C cget cadd cap par fuel s c op f g = GOk su cu ru.
+Proof. exact zoom_retry_set. Qed.
+Print Assumptions C14_zbdd_retry_set.
+
+Theorem C14_zbdd_retry_not : forall gt C cget cadd cap par fuel s (c : C) f su cu ru,
+  zapply_not gt C cget cadd fuel s c f = Some (su, cu, ru) -> node_count su <= cap ->
+  zapply_not_c gt C cget cadd cap par fuel s c f = GOk su cu ru.
+Proof. exact zoom_retry_not. Qed.
+Print Assumptions C14_zbdd_retry_not.
+
+Theorem C14_zbdd_retry_op : forall gt C cget cadd cap par op fuel s (c : C) f g su cu ru,
+  zapply_op gt C cget cadd fuel s c op f g = Some (su, cu, ru) -> node_count su <= cap ->
+  zapply_op_c gt C cget cadd cap par fuel s c op f g = GOk su cu ru.
+Proof. exact zoom_retry_op. Qed.
+Print Assumptions C14_zbdd_retry_op.
+
+Theorem C14_zbdd_retry_ite : forall gt C cget cadd cap par fuel s (c : C) f g h su cu ru,
+  zapply_ite gt C cget cadd fuel s c f g h = Some (su, cu, ru) -> node_count su <= cap ->
+  zapply_ite_c gt C cget cadd cap par fuel s c f g h = GOk su cu ru.
+Proof. exact zoom_retry_ite. Qed.
+Print Assumptions C14_zbdd_retry_ite.
+
+Theorem C14_zbdd_monotone_set : forall gt C cget cadd cap cap' par par' op fuel s (c : C) f g s' c' r, cap <= cap' ->
+  zapply_c gt C cget cadd cap par fuel s c op f g = GOk s' c' r ->
+  zapply_c gt C cget cadd cap' par' fuel s c op f g = GOk s' c' r.
+Proof. exact zoom_monotone_set. Qed.
+Print Assumptions C14_zbdd_monotone_set.
+
+Theorem C14_zbdd_monotone_not : forall gt C cget cadd cap cap' par par' fuel s (c : C) f s' c' r, cap <= cap' ->
+  zapply_not_c gt C cget cadd cap par fuel s c f = GOk s' c' r ->
+  zapply_not_c gt C cget cadd cap' par' fuel s c f = GOk s' c' r.
+Proof. exact zoom_monotone_not. Qed.
+Print Assumptions C14_zbdd_monotone_not.
+
+Theorem C14_zbdd_monotone_op : forall gt C cget cadd cap cap' par par' op fuel s (c : C) f g s' c' r, cap <= cap' ->
+  zapply_op_c gt C cget cadd cap par fuel s c op f g = GOk s' c' r ->
+  zapply_op_c gt C cget cadd cap' par' fuel s c op f g = GOk s' c' r.
+Proof. exact zoom_monotone_op. Qed.
+Print Assumptions C14_zbdd_monotone_op.
+
+Theorem C14_zbdd_monotone_ite : forall gt C cget cadd cap cap' par par' fuel s (c : C) f g h s' c' r, cap <= cap' ->
+  zapply_ite_c gt C cget cadd cap par fuel s c f g h = GOk s' c' r ->
+  zapply_ite_c gt C cget cadd cap' par' fuel s c f g h = GOk s' c' r.
+Proof. exact zoom_monotone_ite. Qed.
+Print Assumptions C14_zbdd_monotone_ite.
+
+(* singleton_edge: one insertion; on failure the manager is untouched *)
+
+Theorem C14_zbdd_singleton_exact : forall cap s var, ZbddOK s -> var < length (s_v2l s) ->
+  exists vl s' r R, nth_error (s_v2l s) var = Some vl /\ zsingleton s var = Some (s', r) /\
+    ZbddOK s' /\ extends s s' /\ ref_ok s' r /\ fam_of s' r = Some R /\ feq R (f_singleton vl) /\
+    (node_count s' <= Nat.max cap (node_count s) -> zsingleton_cap cap s var = Some (Some (s', r))) /\
+    (Nat.max cap (node_count s) < node_count s' ->
+       zsingleton_cap cap s var = Some None /\ cap <= node_count s).
+Proof. exact zoom_singleton_exact. Qed.
+Print Assumptions C14_zbdd_singleton_exact.
+
+Theorem C14_zbdd_singleton_never_wrong : forall cap s var s' r,
+  zsingleton_cap cap s var = Some (Some (s', r)) -> zsingleton s var = Some (s', r).
+Proof. exact zoom_singleton_never_wrong. Qed.
+Print Assumptions C14_zbdd_singleton_never_wrong.
+
+(* non-vacuity on the table ex_z4 (4 levels, tautology chain + 3 family nodes) *)
+
+Theorem C14_zbdd_example_table : ZbddOK ex_z4 /\ ZChainOK ex_z4 /\ ZCacheOKB unit znc_get ex_z4 tt /\
+  ZCacheOKB zacache zac_get ex_z4 [] /\ node_count ex_z4 = 7.
+Proof. exact ex_z4_state. Qed.
+Print Assumptions C14_zbdd_example_table.
+
+Theorem C14_zbdd_example_not : forall p,
+  map (fun cap => zout (znot_nc cap p ex_z4 (RN 3))) [0; 7; 8; 9; 10; 11; 12; 13; 14] =
+  [(1, Some 7, None); (1, Some 7, None); (1, Some 8, None); (1, Some 9, None); (1, Some 10, None);
+   (1, Some 11, None); (1, Some 12, None); (0, Some 13, Some (RN 13)); (0, Some 13, Some (RN 13))].
+Proof. exact ex_z4_not_c. Qed.
+Print Assumptions C14_zbdd_example_not.
+
+Theorem C14_zbdd_example_recursors : let run p := zapply_op_c zgt_id zacache zac_get zac_add 7 (fun _ => p) 5 ex_z4 [] OImp (RN 3) (RN 2) in
+  (gres_code (run false), zcache_of (run false)) = (1, Some []) /\
+  (gres_code (run true), option_map (@length _) (zcache_of (run true))) = (1, Some 4).
+Proof. exact ex_z4_recursors. Qed.
+Print Assumptions C14_zbdd_example_recursors.
+
+Theorem C14_zbdd_example_exact : forall cap p,
+  (13 <= cap -> gres_code (znot_nc cap p ex_z4 (RN 3)) = 0) /\
+  (cap < 13 -> exists s' c', znot_nc cap p ex_z4 (RN 3) = GOom s' c' /\
+     ZbddOK s' /\ ZChainOK s' /\ ZCacheOKB unit znc_get s' c' /\ extends ex_z4 s' /\ intact_z ex_z4 s' /\
+         node_count ex_z4 <= node_count s' /\ cap <= node_count s').
+Proof. exact ex_z4_exact_consequence. Qed.
+Print Assumptions C14_zbdd_example_exact.
+
+
+(** *** 11.3 MTBDD (references; terminal values [i64v] coded in [s_terms]; two budgets) *)
+
+(* never a wrong reference *)
+
+Theorem C14_mt_never_wrong_bin : forall gt C cget cadd cap tcap op fuel s (c : C) f g s' c' r,
+  mt_apply_bin_c gt C cget cadd cap tcap fuel s c op f g = GOk s' c' r ->
+  mt_apply_bin gt C cget cadd fuel s c op f g = Some (s', c', r).
+Proof. exact moom_never_wrong_bin. Qed.
+Print Assumptions C14_mt_never_wrong_bin.
+
+Theorem C14_mt_never_wrong_ite : forall C cget cadd cap fuel s (c : C) f g h s' c' r,
+  mt_apply_ite_c C cget cadd cap fuel s c f g h = GOk s' c' r ->
+  mt_apply_ite C cget cadd fuel s c f g h = Some (s', c', r).
+Proof. exact moom_never_wrong_ite. Qed.
+Print Assumptions C14_mt_never_wrong_ite.
+
+Theorem C14_mt_never_wrong_restrict : forall C cget cadd cap fuel s (c : C) f vars s' c' r,
+  mt_restrict_c C cget cadd cap fuel s c f vars = GOk s' c' r ->
+  mt_restrict C cget cadd fuel s c f vars = Some (s', c', r).
+Proof. exact moom_never_wrong_restrict. Qed.
+Print Assumptions C14_mt_never_wrong_restrict.
+
+Theorem C14_mt_never_wrong_bin_sem : forall gt C cget cadd, lossy cget cadd ->
+  forall cap tcap op fuel s (c : C) f g s' c' r,
+  MtOK s -> MCacheOK cget s c -> ref_ok s f -> ref_ok s g -> S (nlevels s) <= fuel ->
+  mt_apply_bin_c gt C cget cadd cap tcap fuel s c op f g = GOk s' c' r ->
+  MtOK s' /\ MCacheOK cget s' c' /\ mext s s' /\ intact_m s s' /\ ref_ok s' r /\
+  forall c0, bchoice c0 -> exists x y,
+    semk s (S (nlevels s)) f c0 = Some (code x) /\ semk s (S (nlevels s)) g c0 = Some (code y) /\
+    semk s' (S (nlevels s')) r c0 = Some (code (mop_eval op x y)).
+Proof. exact moom_never_wrong_bin_sem. Qed.
+Print Assumptions C14_mt_never_wrong_bin_sem.
+
+Theorem C14_mt_never_wrong_ite_sem : forall C cget cadd, lossy cget cadd ->
+  forall cap fuel s (c : C) f g h s' c' r,
+  MtOK s -> MCacheOK cget s c -> ref_ok s f -> ref_ok s g -> ref_ok s h -> S (nlevels s) <= fuel ->
+  mt_apply_ite_c C cget cadd cap fuel s c f g h = GOk s' c' r ->
+  MtOK s' /\ MCacheOK cget s' c' /\ mext s s' /\ intact_m s s' /\ term_count s' = term_count s /\
+  ref_ok s' r /\
+  forall c0, bchoice c0 -> exists x y z,
+    semk s (S (nlevels s)) f c0 = Some (code x) /\ semk s (S (nlevels s)) g c0 = Some (code y) /\
+    semk s (S (nlevels s)) h c0 = Some (code z) /\
+    semk s' (S (nlevels s')) r c0 = Some (code (if i64_is_zero x then z else y)).
+Proof. exact moom_never_wrong_ite_sem. Qed.
+Print Assumptions C14_mt_never_wrong_ite_sem.
+
+Theorem C14_mt_never_wrong_restrict_sem : forall C cget cadd, lossy cget cadd ->
+  forall cap fuel s (c : C) f vars lits s' c' r,
+  MtOK s -> MCacheOK cget s c -> ref_ok s f -> Cube s vars lits -> S (nlevels s) <= fuel ->
+  mt_restrict_c C cget cadd cap fuel s c f vars = GOk s' c' r ->
+  MtOK s' /\ MCacheOK cget s' c' /\ mext s s' /\ intact_m s s' /\ term_count s' = term_count s /\
+  ref_ok s' r /\
+  forall c0, bchoice c0 -> exists x,
+    semk s (S (nlevels s)) f (ovr lits c0) = Some (code x) /\ semk s' (S (nlevels s')) r c0 = Some (code x).
+Proof. exact moom_never_wrong_restrict_sem. Qed.
+Print Assumptions C14_mt_never_wrong_restrict_sem.
+
+(* after Err(OutOfMemory): well-formed MTBDD table, correct cache, only extended (nodes AND terminals),
+   everything that existed intact, one of the two stores full; ite / restrict never touch the terminal store *)
+
+Theorem C14_mt_safe_bin : forall gt C cget cadd, lossy cget cadd ->
+  forall cap tcap op fuel s (c : C) f g s' c',
+  MtOK s -> MCacheOK cget s c -> ref_ok s f -> ref_ok s g -> S (nlevels s) <= fuel ->
+  mt_apply_bin_c gt C cget cadd cap tcap fuel s c op f g = GOom s' c' ->
+  MtOK s' /\ MCacheOK cget s' c' /\ mext s s' /\ intact_m s s' /\
+         node_count s <= node_count s' /\ term_count s <= term_count s' /\
+         (cap <= node_count s' \/ tcap <= term_count s').
+Proof. exact moom_safe_bin. Qed.
+Print Assumptions C14_mt_safe_bin.
+
+Theorem C14_mt_safe_ite : forall C cget cadd, lossy cget cadd ->
+  forall cap fuel s (c : C) f g h s' c',
+  MtOK s -> MCacheOK cget s c -> ref_ok s f -> ref_ok s g -> ref_ok s h -> S (nlevels s) <= fuel ->
+  mt_apply_ite_c C cget cadd cap fuel s c f g h = GOom s' c' ->
+  MtOK s' /\ MCacheOK cget s' c' /\ mext s s' /\ intact_m s s' /\
+         node_count s <= node_count s' /\ cap <= node_count s' /\ term_count s' = term_count s.
+Proof. exact moom_safe_ite. Qed.
+Print Assumptions C14_mt_safe_ite.
+
+Theorem C14_mt_safe_restrict : forall C cget cadd, lossy cget cadd ->
+  forall cap fuel s (c : C) f vars lits s' c',
+  MtOK s -> MCacheOK cget s c -> ref_ok s f -> Cube s vars lits -> S (nlevels s) <= fuel ->
+  mt_restrict_c C cget cadd cap fuel s c f vars = GOom s' c' ->
+  MtOK s' /\ MCacheOK cget s' c' /\ mext s s' /\ intact_m s s' /\
+         node_count s <= node_count s' /\ cap <= node_count s' /\ term_count s' = term_count s.
+Proof. exact moom_safe_restrict. Qed.
+Print Assumptions C14_mt_safe_restrict.
+
+Theorem C14_mt_intact_meaning : forall s s', intact_m s s' ->
+  s_handles s' = s_handles s /\
+  s_v2l s' = s_v2l s /\ s_l2v s' = s_l2v s /\
+  (forall t c, term_val s t = Some c -> term_val s' t = Some c) /\
+  (forall id nd, find_node s id = Some nd -> find_node s' id = Some nd) /\
+  (forall r, ref_ok s r -> ref_ok s' r /\ forall k c0, semk s' k r c0 = semk s k r c0) /\
+  (forall h, In h (s_handles s) -> forall c0, sem_edge s' (snd h) c0 = sem_edge s (snd h) c0) /\
+  (forall id, find_node s id = None -> ~ reachable s' (handle_refs s') (RN id)) /\
+  (forall r, reachable s' (handle_refs s') r <-> reachable s (handle_refs s) r).
+Proof. exact intact_m_elim. Qed.
+Print Assumptions C14_mt_intact_meaning.
+
+(* no panic, no divergence *)
+
+Theorem C14_mt_no_panic_bin : forall gt C cget cadd, lossy cget cadd ->
+  forall cap tcap op fuel s (c : C) f g,
+  MtOK s -> MCacheOK cget s c -> ref_ok s f -> ref_ok s g -> S (nlevels s) <= fuel ->
+  mt_apply_bin_c gt C cget cadd cap tcap fuel s c op f g <> GStuck.
+Proof. exact moom_no_panic_bin. Qed.
+Print Assumptions C14_mt_no_panic_bin.
+
+Theorem C14_mt_no_panic_ite : forall C cget cadd, lossy cget cadd ->
+  forall cap fuel s (c : C) f g h,
+  MtOK s -> MCacheOK cget s c -> ref_ok s f -> ref_ok s g -> ref_ok s h -> S (nlevels s) <= fuel ->
+  mt_apply_ite_c C cget cadd cap fuel s c f g h <> GStuck.
+Proof. exact moom_no_panic_ite. Qed.
+Print Assumptions C14_mt_no_panic_ite.
+
+Theorem C14_mt_no_panic_restrict : forall C cget cadd, lossy cget cadd ->
+  forall cap fuel s (c : C) f vars lits,
+  MtOK s -> MCacheOK cget s c -> ref_ok s f -> Cube s vars lits -> S (nlevels s) <= fuel ->
+  mt_restrict_c C cget cadd cap fuel s c f vars <> GStuck.
+Proof. exact moom_no_panic_restrict. Qed.
+Print Assumptions C14_mt_no_panic_restrict.
+
+(* exactness: the correct result exactly when BOTH stores suffice for the table of the unbounded run *)
+
+Theorem C14_mt_exact_bin : forall gt C cget cadd, lossy cget cadd ->
+  forall cap tcap op fuel s (c : C) f g,
+  MtOK s -> MCacheOK cget s c -> ref_ok s f -> ref_ok s g -> S (nlevels s) <= fuel ->
+  exists su cu ru, mt_apply_bin gt C cget cadd fuel s c op f g = Some (su, cu, ru) /\
+    (forall c0, bchoice c0 -> exists x y,
+    semk s (S (nlevels s)) f c0 = Some (code x) /\ semk s (S (nlevels s)) g c0 = Some (code y) /\
+    semk su (S (nlevels su)) ru c0 = Some (code (mop_eval op x y))) /\
+    (node_count su <= Nat.max cap (node_count s) /\ term_count su <= Nat.max tcap (term_count s) ->
+       mt_apply_bin_c gt C cget cadd cap tcap fuel s c op f g = GOk su cu ru) /\
+    (Nat.max cap (node_count s) < node_count su \/ Nat.max tcap (term_count s) < term_count su ->
+       exists s' c', mt_apply_bin_c gt C cget cadd cap tcap fuel s c op f g = GOom s' c' /\
+         MtOK s' /\ MCacheOK cget s' c' /\ mext s s' /\ intact_m s s' /\
+         node_count s <= node_count s' /\ term_count s <= term_count s' /\
+         (cap <= node_count s' \/ tcap <= term_count s')).
+Proof. exact moom_exact_bin. Qed.
+Print Assumptions C14_mt_exact_bin.
+
+Theorem C14_mt_exact_ite : forall C cget cadd, lossy cget cadd ->
+  forall cap fuel s (c : C) f g h,
+  MtOK s -> MCacheOK cget s c -> ref_ok s f -> ref_ok s g -> ref_ok s h -> S (nlevels s) <= fuel ->
+  exists su cu ru, mt_apply_ite C cget cadd fuel s c f g h = Some (su, cu, ru) /\
+    term_count su = term_count s /\
+    (forall c0, bchoice c0 -> exists x y z,
+    semk s (S (nlevels s)) f c0 = Some (code x) /\ semk s (S (nlevels s)) g c0 = Some (code y) /\
+    semk s (S (nlevels s)) h c0 = Some (code z) /\
+    semk su (S (nlevels su)) ru c0 = Some (code (if i64_is_zero x then z else y))) /\
+    (node_count su <= Nat.max cap (node_count s) -> mt_apply_ite_c C cget cadd cap fuel s c f g h = GOk su cu ru) /\
+    (Nat.max cap (node_count s) < node_count su ->
+       exists s' c', mt_apply_ite_c C cget cadd cap fuel s c f g h = GOom s' c' /\
+         MtOK s' /\ MCacheOK cget s' c' /\ mext s s' /\ intact_m s s' /\
+         node_count s <= node_count s' /\ cap <= node_count s' /\ term_count s' = term_count s).
+Proof. exact moom_exact_ite. Qed.
+Print Assumptions C14_mt_exact_ite.
+
+Theorem C14_mt_exact_restrict : forall C cget cadd, lossy cget cadd ->
+  forall cap fuel s (c : C) f vars lits,
+  MtOK s -> MCacheOK cget s c -> ref_ok s f -> Cube s vars lits -> S (nlevels s) <= fuel ->
+  exists su cu ru, mt_restrict C cget cadd fuel s c f vars = Some (su, cu, ru) /\
+    term_count su = term_count s /\
+    (forall c0, bchoice c0 -> exists x,
+    semk s (S (nlevels s)) f (ovr lits c0) = Some (code x) /\ semk su (S (nlevels su)) ru c0 = Some (code x)) /\
+    (node_count su <= Nat.max cap (node_count s) -> mt_restrict_c C cget cadd cap fuel s c f vars = GOk su cu ru) /\
+    (Nat.max cap (node_count s) < node_count su ->
+       exists s' c', mt_restrict_c C cget cadd cap fuel s c f vars = GOom s' c' /\
+         MtOK s' /\ MCacheOK cget s' c' /\ mext s s' /\ intact_m s s' /\
+         node_count s <= node_count s' /\ cap <= node_count s' /\ term_count s' = term_count s).
+Proof. exact moom_exact_restrict. Qed.
+Print Assumptions C14_mt_exact_restrict.
+
+(* retry and monotonicity in both capacities (no hypothesis) *)
+
+Theorem C14_mt_retry_bin : forall gt C cget cadd cap tcap op fuel s (c : C) f g su cu ru,
+  mt_apply_bin gt C cget cadd fuel s c op f g = Some (su, cu, ru) ->
+  node_count su <= cap -> term_count su <= tcap ->
+  mt_apply_bin_c gt C cget cadd cap tcap fuel s c op f g = GOk su cu ru.
+Proof. exact moom_retry_bin. Qed.
+Print Assumptions C14_mt_retry_bin.
+
+Theorem C14_mt_retry_ite : forall C cget cadd cap fuel s (c : C) f g h su cu ru,
+  mt_apply_ite C cget cadd fuel s c f g h = Some (su, cu, ru) -> node_count su <= cap ->
+  mt_apply_ite_c C cget cadd cap fuel s c f g h = GOk su cu ru.
+Proof. exact moom_retry_ite. Qed.
+Print Assumptions C14_mt_retry_ite.
+
+Theorem C14_mt_retry_restrict : forall C cget cadd cap fuel s (c : C) f vars su cu ru,
+  mt_restrict C cget cadd fuel s c f vars = Some (su, cu, ru) -> node_count su <= cap ->
+  mt_restrict_c C cget cadd cap fuel s c f vars = GOk su cu ru.
+Proof. exact moom_retry_restrict. Qed.
+Print Assumptions C14_mt_retry_restrict.
+
+Theorem C14_mt_monotone_bin : forall gt C cget cadd cap cap' tcap tcap' op fuel s (c : C) f g s' c' r,
+  cap <= cap' -> tcap <= tcap' ->
+  mt_apply_bin_c gt C cget cadd cap tcap fuel s c op f g = GOk s' c' r ->
+  mt_apply_bin_c gt C cget cadd cap' tcap' fuel s c op f g = GOk s' c' r.
+Proof. exact moom_monotone_bin. Qed.
+Print Assumptions C14_mt_monotone_bin.
+
+Theorem C14_mt_monotone_ite : forall C cget cadd cap cap' fuel s (c : C) f g h s' c' r, cap <= cap' ->
+  mt_apply_ite_c C cget cadd cap fuel s c f g h = GOk s' c' r ->
+  mt_apply_ite_c C cget cadd cap' fuel s c f g h = GOk s' c' r.
+Proof. exact moom_monotone_ite. Qed.
+Print Assumptions C14_mt_monotone_ite.
+
+Theorem C14_mt_monotone_restrict : forall C cget cadd cap cap' fuel s (c : C) f vars s' c' r, cap <= cap' ->
+  mt_restrict_c C cget cadd cap fuel s c f vars = GOk s' c' r ->
+  mt_restrict_c C cget cadd cap' fuel s c f vars = GOk s' c' r.
+Proof. exact moom_monotone_restrict. Qed.
+Print Assumptions C14_mt_monotone_restrict.
+
+(* constants (one terminal; on failure the manager is untouched) and variables (two terminals and a node;
+   a failure of a later step leaves what the earlier steps created) *)
+
+Theorem C14_mt_const_never_wrong : forall tcap s v s' r,
+  mt_const_cap tcap s v = Some (s', r) -> mt_const s v = (s', r).
+Proof. exact moom_const_never_wrong. Qed.
+Print Assumptions C14_mt_const_never_wrong.
+
+Theorem C14_mt_const_oom_iff : forall tcap s v, WF s ->
+  (mt_const_cap tcap s v = None <->
+   (forall t, term_val s t <> Some (code v)) /\ tcap <= term_count s).
+Proof. exact moom_const_oom_iff. Qed.
+Print Assumptions C14_mt_const_oom_iff.
+
+Theorem C14_mt_const_exact : forall tcap s v, MtOK s -> wf v ->
+  exists s' r, mt_const s v = (s', r) /\ MtOK s' /\ mext s s' /\ intact_m s s' /\ ref_ok s' r /\
+    (forall a, mfun_of s' r a = v) /\
+    node_count s' = node_count s /\ term_count s <= term_count s' /\
+    (term_count s' <= Nat.max tcap (term_count s) -> mt_const_cap tcap s v = Some (s', r)) /\
+    (Nat.max tcap (term_count s) < term_count s' ->
+       mt_const_cap tcap s v = None /\ tcap <= term_count s).
+Proof. exact moom_const_exact. Qed.
+Print Assumptions C14_mt_const_exact.
+
+Theorem C14_mt_var_never_wrong : forall cap tcap s v s' c' r,
+  mt_var_cap cap tcap s v = Some (GOk s' c' r) -> mt_var s v = Some (s', r).
+Proof. exact moom_never_wrong_var. Qed.
+Print Assumptions C14_mt_var_never_wrong.
+
+Theorem C14_mt_var_no_panic : forall cap tcap s v, MtOK s -> v < nlevels s ->
+  exists rb, mt_var_cap cap tcap s v = Some rb /\ rb <> GStuck.
+Proof. exact moom_no_panic_var. Qed.
+Print Assumptions C14_mt_var_no_panic.
+
+Theorem C14_mt_var_safe : forall cap tcap s v s' c', MtOK s -> v < nlevels s ->
+  mt_var_cap cap tcap s v = Some (GOom s' c') ->
+  MtOK s' /\ MCacheOK nc_get s' c' /\ mext s s' /\ intact_m s s' /\
+         node_count s <= node_count s' /\ term_count s <= term_count s' /\
+         (cap <= node_count s' \/ tcap <= term_count s').
+Proof. exact moom_safe_var. Qed.
+Print Assumptions C14_mt_var_safe.
+
+Theorem C14_mt_var_exact : forall cap tcap s v, MtOK s -> v < nlevels s ->
+  exists s' r, mt_var s v = Some (s', r) /\ MtOK s' /\ mext s s' /\ intact_m s s' /\ ref_ok s' r /\
+    (forall a, mfun_of s' r a = if a v then i64_one else i64_zero) /\
+    exists rb, mt_var_cap cap tcap s v = Some rb /\
+      (node_count s' <= Nat.max cap (node_count s) /\ term_count s' <= Nat.max tcap (term_count s) ->
+         rb = GOk s' tt r) /\
+      (Nat.max cap (node_count s) < node_count s' \/ Nat.max tcap (term_count s) < term_count s' ->
+         exists s2 c2, rb = GOom s2 c2 /\
+         MtOK s2 /\ MCacheOK nc_get s2 c2 /\ mext s s2 /\ intact_m s s2 /\
+         node_count s <= node_count s2 /\ term_count s <= term_count s2 /\
+         (cap <= node_count s2 \/ tcap <= term_count s2)).
+Proof. exact moom_exact_var. Qed.
+Print Assumptions C14_mt_var_exact.
+
+(* non-vacuity on the table exh (2 levels, 5 nodes, 4 terminals, 3 handles): f + x0 needs 7 nodes and
+   5 terminals; node budget / terminal budget / garbage; for ALL capacities: success iff both suffice *)
+
+Theorem C14_mt_example_table : MtOK exh /\ node_count exh = 5 /\ term_count exh = 4.
+Proof. exact (conj exh_ok (conj (proj1 exh_counts) (proj1 (proj2 exh_counts)))). Qed.
+Print Assumptions C14_mt_example_table.
+
+Theorem C14_mt_example_sweep : forallb (fun cap => forallb (fun tcap =>
+     Nat.eqb (gres_code (mbin_nc cap tcap exh MAdd ex_f ex_x0))
+             (if Nat.leb 7 cap && Nat.leb 5 tcap then 0 else 1)) (seq 0 8)) (seq 0 10) = true.
+Proof. exact ex_add_sweep. Qed.
+Print Assumptions C14_mt_example_sweep.
+
+Theorem C14_mt_example_term_garbage : summ (mbin_nc 100 6 exh MMul ex_f ex_f) = (0, Some (7, 6, true), Some (RN 8)) /\
+  summ (mbin_nc 100 5 exh MMul ex_f ex_f) = (1, Some (5, 5, true), None) /\
+  match gres_snap (mbin_nc 100 5 exh MMul ex_f ex_f) with
+  | Some s' => kept_b exh s' = true /\ term_count s' = S (term_count exh)
+  | None => False
+  end.
+Proof. exact ex_mul_term_garbage. Qed.
+Print Assumptions C14_mt_example_term_garbage.
+
+Theorem C14_mt_example_exact : forall cap tcap,
+  (7 <= cap /\ 5 <= tcap -> gres_code (mbin_nc cap tcap exh MAdd ex_f ex_x0) = 0) /\
+  (cap < 7 \/ tcap < 5 -> gres_code (mbin_nc cap tcap exh MAdd ex_f ex_x0) = 1).
+Proof. exact ex_exact_consequence. Qed.
+Print Assumptions C14_mt_example_exact.
